@@ -85,7 +85,7 @@ def generate(rng, tier):
     for op in OPS5 + ["=>", "==", "=<", "<>", "><", ">>", "<<", "<=>=", ">=<=", "=>=", ">==", "<==", ""]:
         for n in ["0", "1", "20", "75", "76", "255", "256", "65535", "65536", "4294967295", "4294967296", "18446744073709551615",
                   "18446744073709551616", "99999999999999999999999", "", "+5", "-5", " 5", "5 ", "05", "0005", "5a", "a", "5=6", "5>6"]:
-            if quick and rng.random() < 0.55:
+            if quick and rng.random() < 0.3:
                 continue
             TP("OP_DATA" + op + n)
     for t in ["OP_DATAxyz>=5", "OP_DATA_>=5", "OP_DATA5", "OP_DATA 5", "OP_DATA=", "OP_DATA>", "OP_DATA<", "OP_DATA>=", "OP_DATA<=", "xOP_DATA=5", "OP_DAT=5",
@@ -147,7 +147,7 @@ def generate(rng, tier):
     SM("ac", "OP_PUBKEYHASH"); SM("ac", "OP_SIG"); SM("ac", "OP_PUBKEY"); SM("ac", "OP_DATA"); SM("ac", "OP_DATA>=0")
     # random pairs
     g = H.Gen(rng, table)
-    for i in range(60 if quick else 800):
+    for i in range(250 if quick else 1500):
         b, t = g.elems(rng.randrange(0, 2), rng.randrange(0, 6))
         if len(b) > 800:
             continue
@@ -176,9 +176,9 @@ def generate(rng, tier):
         SF("%02x" % v)
         if v not in H.IFS:
             SF("51%02x0201ff" % v)
-    for b in (range(256) if not quick else list(range(0, 0x24)) + [0x63, 0x99, 0xff]):
+    for b in range(256):
         SF("01%02x" % b)
-    for i in range(80 if quick else 1500):
+    for i in range(250 if quick else 2500):
         b, t = g.elems(rng.choice([0, 0, 0, 1]), rng.randrange(1, 7))
         if len(b) <= 800:
             SF(b)
@@ -190,7 +190,7 @@ def generate(rng, tier):
     B = [0, 1, 5, 6, 7, 1000, 2 ** 32, 2 ** 63, 2 ** 64 - 1]
     U = 2 ** 64 - 1
     for mask in range(16):
-        for rep in range(3 if quick else 12):
+        for rep in range(8 if quick else 40):
             nout = rng.randrange(0, 7)
             if rng.random() < 0.75:      # coherent bounds: min <= exact <= max, values around them
                 e = rng.choice(B)
